@@ -8,3 +8,9 @@ import Rp2.Props.C16
 #print axioms Rp2.C16.files_are_reports
 #print axioms Rp2.C16.full_report_total
 #print axioms Rp2.C16.tax_sheet_fits
+#print axioms Rp2.C16.tax_report_fails_only_on_unmapped_type
+#print axioms Rp2.C16.tax_report_total
+#print axioms Rp2.C16.valid_run_completes
+#print axioms Rp2.C16.generator_full_total
+#print axioms Rp2.C16.generator_tax_total
+#print axioms Rp2.C16.generator_jp_total
